@@ -1117,6 +1117,7 @@ func RecordBcast(t *testing.T, rep *Report, tg BcastTarget, tr *Tracer, runs int
 			}
 		}
 		var published int32Counter
+		redelivered := &budgetCounter{left: 6}
 		var wg sync.WaitGroup
 		// receivers
 		for _, h := range hs {
@@ -1163,7 +1164,9 @@ func RecordBcast(t *testing.T, rep *Report, tg BcastTarget, tr *Tracer, runs int
 					n := r.sendX(s, s == "s3", fmt.Sprintf("%s-%d", s, i), failFirst && i == 0)
 					mine = append(mine, n)
 					published.add(1)
-					for lr.Intn(2) == 0 && !withTicks {
+					// a few re-publications per run: many concurrent ones into a queue that is not being
+					// drained leave trace validation with an exponential number of enqueue orders to try
+					for k := 0; k < 2 && lr.Intn(2) == 0 && !withTicks && redelivered.take(); k++ {
 						r.redeliver(s, mine[lr.Intn(len(mine))])
 					}
 					if lr.Intn(2) == 0 {
@@ -1196,6 +1199,21 @@ func RecordBcast(t *testing.T, rep *Report, tg BcastTarget, tr *Tracer, runs int
 		rep.Eval(key, map[string]interface{}{"target": tg.Name, "handlers": nH, "messages": nMsg, "ticks": withTicks})
 		r.finish(tr, rep, "concurrent")
 	}
+}
+
+type budgetCounter struct {
+	mu   sync.Mutex
+	left int
+}
+
+func (b *budgetCounter) take() bool {
+	b.mu.Lock()
+	defer b.mu.Unlock()
+	if b.left <= 0 {
+		return false
+	}
+	b.left--
+	return true
 }
 
 type int32Counter struct {
